@@ -47,7 +47,7 @@ RULE = (
 MUST_HIT = ["input_stdin", "input_wav", "input_raw", "input_noext_f_raw", "opt_u_int", "opt_u_mix", "opt_M", "opt_L",
             "opt_q", "opt_j_without_O", "opt_O", "opt_O_raw", "opt_o", "opt_j", "fmt_S", "fmt_I", "fmt_hmsi", "fmt_unknown",
             "cli_defaults_n_m_s", "default_n", "default_m", "default_s", "default_a", "default_e",
-            "input_stdin_real_pipe", "window_not_whole_samples", "stdin_window_above_64KiB", "slow_consumers"]
+            "input_stdin_real_pipe", "window_not_whole_samples", "stdin_window_above_64KiB", "slow_consumers", "wav_input_with_ignored_raw_parameters"]
 ASSUMPTIONS = [
     "-E, -C, -p/--save-image, -I/-F and non wav/raw formats cannot run in this sandbox (no pyaudio/pydub/ffmpeg/sox)",
     "-a values are chosen so that a*rate is an integer (window == block duration, cf. C09)",
@@ -228,6 +228,10 @@ def check_cli(case, rec):
                 fp.setnchannels(ch)
                 fp.writeframes(data)
             argv.append(path)
+            if opts.get("wav_bogus_params"):
+                # -r/-c/-w describe raw input; for a wav file the header governs and they are ignored
+                argv += ["-r", str(opts["wav_bogus_params"][0]), "-c", str(opts["wav_bogus_params"][1]), "-w", str(opts["wav_bogus_params"][2])]
+                classes.add("wav_input_with_ignored_raw_parameters")
         elif kind in ("raw", "noext"):
             path = os.path.join(d, "in.raw" if kind == "raw" else "in")
             with open(path, "wb") as fp:
@@ -324,6 +328,14 @@ def check_cli(case, rec):
         if opts.get("O"):
             # .raw: the stream is recorded to a temporary wav and exported headerless at the end
             O_path = os.path.join(d, "stream.raw" if opts.get("O_raw") and opts.get("j") is None else "stream.wav")
+            if opts.get("O_unencodable") and opts.get("j") is None:
+                # a format that needs an external encoder: without one the stream stays a wav next to the name
+                # asked for and a warning says so - the detections and the exit status are what they always are
+                import shutil
+
+                if not any(shutil.which(x) for x in ("ffmpeg", "avconv", "sox")):
+                    O_path = os.path.join(d, "stream.ogg")
+                    classes.add("opt_O_format_without_encoder")
             argv += ["-O", O_path]
         jsil = None
         if opts.get("j") is not None:
@@ -384,7 +396,14 @@ def check_cli(case, rec):
                 raise Violation(f"auditok {shown}\nprinted {out!r}\nexpected {want_first!r}", case)
         exp = [(i, bytes(r), r.start, r.end) for i, r in enumerate(regions, 1)]
         bps = sw * ch
-        if O_path is not None and O_path.endswith(".raw"):
+        if O_path is not None and O_path.endswith(".ogg"):
+            kept = O_path + ".wav"
+            if os.path.exists(kept):
+                params, frames = pipeline.read_wav(kept)
+                if params != (sr, sw, ch) or frames != vis:
+                    raise Violation("the wav kept in place of the unencodable -O file does not hold the input", case)
+                os.remove(kept)
+        elif O_path is not None and O_path.endswith(".raw"):
             classes.add("opt_O_raw")
             if not os.path.exists(O_path):
                 raise Violation("-O stream.raw was not written", case)
@@ -541,6 +560,9 @@ def explicit_cases():
         cli(input="raw", audio=dflt, win=[20, 500, 30, False, False],
             opts={"dflt_n": True, "dflt_m": True, "dflt_s": True, "dflt_a": True, "dflt_e": True}),
         cli(input="raw", opts={"O": True, "o": "d{id}", "slow_consumers": True}),
+        cli(input="raw", opts={"O": True, "O_unencodable": True}),
+        cli(input="wav", opts={"wav_bogus_params": [50, 1, 1]}),
+        cli(input="wav", audio=dict(a, sr=8000, B=2), opts={"wav_bogus_params": [10, 7, 4], "explicit_fmt": True}),
         cli(input="stdin", audio={"sr": 10, "sw": 2, "ch": 1, "B": 1, "pat": "10" * 30, "tail": [0, 0], "al": 500, "aq": 1, "salt": 6, "uc": None},
             win=[1, 1, 0, False, False], opts={"o": "e{id}", "slow_consumers": True, "explicit_fmt": True}),
         # format specifications and conversions on the placeholders (the time fields are strings once formatted)
@@ -552,6 +574,9 @@ def explicit_cases():
     ]
     for t in (0.0, 0.57, 1.001, 59.9996, 3599.9999, 3723.25, 0.0005, 0.0015, 123.589, 86399.9995, 999999.9999):
         for f in ("%S", "%I", "%h:%m:%s.%i", "%i|%s|%m|%h"):
+            out.append({"t": "fmt", "dur": t, "fmt": f})
+    for t in (59.999, 60.0, 125.25, 3599.9996, 3725.5, 86461.001):
+        for f in ("%s.%i", "%h:%s.%i", "%i", "%m:%i", "%h h %s s", "%s", "%m.%m", "no directive"):
             out.append({"t": "fmt", "dur": t, "fmt": f})
     out.append({"t": "fmt", "dur": 1.5, "fmt": "%h:%m:%s.%x"})
     out.append({"t": "fmt", "dur": 1.5, "fmt": "%S s"})
@@ -574,7 +599,10 @@ def fmt_strategy(draw):
     elif how == 4:
         t = draw(st.sampled_from([59.9996, 3599.9999, 0.57, 1.001, 59.999, 60.0, 3600.0, 0.9995, 0.0005]))
     parts = draw(st.permutations(["%h", "%m", "%s", "%i"]))
-    seps = draw(st.lists(st.sampled_from([":", ".", " ", "h", " min ", "-", "", "ms"]), min_size=5, max_size=5))
+    if draw(st.booleans()):
+        # only some of the directives (seconds without minutes, milliseconds alone, a directive twice, ...)
+        parts = draw(st.lists(st.sampled_from(["%h", "%m", "%s", "%i"]), min_size=0, max_size=5))
+    seps = draw(st.lists(st.sampled_from([":", ".", " ", "h", " min ", "-", "", "ms"]), min_size=len(parts) + 1, max_size=len(parts) + 1))
     combo = seps[0] + "".join(p + s for p, s in zip(parts, seps[1:]))
     fmt = draw(st.sampled_from(["%S", "%I", combo, combo, combo]))
     if draw(st.integers(0, 19)) == 0:
@@ -633,6 +661,10 @@ def cli_strategy(draw, maxwin=20):
                                             "{id:>3} {start!r} {duration:.4} {timestamp:>5}", "d\u00e9tection {id} \u2192 {start}", "{id}\u00a0{end} \u20ac"]))
     if draw(st.booleans()):
         o["time_format"] = draw(st.sampled_from(["%S", "%I", "%h:%m:%s.%i", "%i/%s/%m/%h", "%s.%i (%h h %m m)", "%h:%m:%s.%q"]))
+    if c["input"] == "wav" and draw(rarely(4)):
+        o["wav_bogus_params"] = [draw(st.sampled_from([1, 10, 50, 100, 48000])), draw(st.sampled_from([1, 2, 7])), draw(st.sampled_from([1, 2, 4]))]
+    if draw(rarely(8)):
+        o["O"], o["O_unencodable"] = True, True
     if len(c["audio"]["pat"]) <= 60 and draw(rarely(3)):
         o["slow_consumers"] = True
     if draw(st.integers(0, 3)) == 0:
